@@ -14,6 +14,7 @@ import (
 	"path/filepath"
 	"sort"
 	"strings"
+	"sync"
 	"sync/atomic"
 	"syscall"
 	"time"
@@ -73,7 +74,7 @@ var sites = map[string][]string{
 	"copy":          {"copy.feeder", "store", "pb"},
 	"chunkstream":   {"chunkstream.feeder", "store"},
 	"indexfromfile": {"make.worker.loop", "make.worker.beforeSend", "make.sync.recv"},
-	"tar":           {"fsread"},
+	"tar":           {"fsread", "fsdata", "wbytes"},
 	"untar":         {"fscreate"},
 	"untarindex":    {"untarindex.feeder", "store", "fscreate", "pb"},
 }
@@ -85,14 +86,17 @@ func makeTree(rng *rand.Rand, dir string) {
 	for d := 0; d < 3; d++ {
 		sub := filepath.Join(dir, fmt.Sprintf("dir%d", d))
 		os.MkdirAll(sub, 0755)
-		for f := 0; f < 2+rng.Intn(3); f++ {
+		for f := 0; f < 1+rng.Intn(2); f++ {
 			b := make([]byte, rng.Intn(3000))
 			rng.Read(b)
 			dsu.WriteFile(filepath.Join(sub, fmt.Sprintf("f%d", f)), b)
 		}
 	}
 	os.Symlink("dir0/f0", filepath.Join(dir, "link"))
-	dsu.WriteFile(filepath.Join(dir, "top"), []byte("top file"))
+	// the last entry of the walk is a regular file, often much larger than everything in front of it
+	top := make([]byte, []int{8, 40000, 150000}[rng.Intn(3)])
+	rng.Read(top)
+	dsu.WriteFile(filepath.Join(dir, "top"), top)
 }
 
 func listTree(dir string) map[string]string {
@@ -121,6 +125,9 @@ type countingReader struct {
 	fs     desync.FilesystemReader
 	n      int64
 	onCall func(n int64)
+	// onData is called when the content of the d-th regular file starts to be read (d = 1, 2, ...)
+	d      int64
+	onData func(d int64)
 }
 
 func (r *countingReader) Next() (*desync.File, error) {
@@ -128,7 +135,38 @@ func (r *countingReader) Next() (*desync.File, error) {
 	if r.onCall != nil {
 		r.onCall(n)
 	}
-	return r.fs.Next()
+	f, err := r.fs.Next()
+	if err == nil && f != nil && f.Data != nil && r.onData != nil {
+		f.Data = &firstRead{ReadCloser: f.Data, hit: func() { r.onData(atomic.AddInt64(&r.d, 1)) }}
+	}
+	return f, err
+}
+
+type cancelAfter struct {
+	w     io.Writer
+	after int64
+	seen  int64
+	fire  func()
+}
+
+func (c *cancelAfter) Write(p []byte) (int, error) {
+	n, err := c.w.Write(p)
+	c.seen += int64(n)
+	if c.seen > c.after {
+		c.fire()
+	}
+	return n, err
+}
+
+type firstRead struct {
+	io.ReadCloser
+	once sync.Once
+	hit  func()
+}
+
+func (f *firstRead) Read(p []byte) (int, error) {
+	f.once.Do(f.hit)
+	return f.ReadCloser.Read(p)
 }
 
 type countingWriter struct {
@@ -297,8 +335,17 @@ func run(c *harness.Ctx, i int) {
 				if site == "fsread" && hn == k {
 					fire()
 				}
+			}, onData: func(d int64) {
+				if site == "fsdata" && d == k {
+					fire()
+				}
 			}}
-			err = desync.Tar(ctx, &out, rd)
+			// "wbytes": cancel once k/13 of the archive went out
+			var w io.Writer = &out
+			if site == "wbytes" {
+				w = &cancelAfter{w: &out, after: int64(full.Len()) * k / 13, fire: fire}
+			}
+			err = desync.Tar(ctx, w, rd)
 			complete = bytes.Equal(out.Bytes(), full.Bytes())
 			detail = fmt.Sprintf("archive has %d of %d bytes", out.Len(), full.Len())
 		case "untar", "untarindex":
@@ -430,6 +477,9 @@ func runCLI(c *harness.Ctx, srng *rand.Rand, s, slot int) {
 		args = []string{"extract", "-n", fmt.Sprint(n), "-s", srv.URL, "-e", "1"}
 		if cmdName == "extract-k" {
 			args = append(args, "-k")
+		}
+		if srng.Intn(3) == 0 {
+			args = append(args, "--print-stats") // rarely used reporting option: the exit status must not depend on it
 		}
 		args = append(args, idxFile, dest)
 	case "chop":
